@@ -181,13 +181,19 @@ func lifeRun(e *Env) {
 		if g.Pct(25) {
 			l.Window = []int{64, 512, 4096}[g.Intn(3)]
 		}
+		// the k-th socket operation fails; the range of k follows how finely the
+		// stream is cut so that late operations are reached too
+		maxReads := []int{12, 40, 700, 200}[l.ChunkMode]
 		switch g.W(6, 1, 1, 1) {
 		case 1:
-			l.ReadErrAtOp = g.Range(1, 40)
+			l.ReadErrAtOp = g.Range(1, maxReads)
 		case 2:
-			l.EOFAtOp = g.Range(1, 40)
+			l.EOFAtOp = g.Range(1, maxReads)
 		case 3:
 			l.WriteErrAtOp = g.Range(1, 14)
+			if g.Pct(20) {
+				l.WriteErrAtOp = g.Range(1, 120)
+			}
 			l.ShortWrite = g.Bool()
 		}
 	}
